@@ -2,5 +2,6 @@ SPECIFICATION Spec
 CONSTANTS
   Stride = 10
   Offset = 1
+  MaxSteps = 1
 INVARIANT Emit
 CHECK_DEADLOCK FALSE
